@@ -84,12 +84,49 @@ private:
         uint8_t curVersion{0};
         CmpHeader::MessageType curMessageType{0};
         uint16_t curSegment{0};
+#ifdef ASAM_CMP_VERIF
+        friend class Decoder;
+#endif
     };
 
     using SegmentedPackets = std::unordered_map<Endpoint, SegmentedPacket, EndpointHash>;
 
 private:
     SegmentedPackets segmentedPackets;
+
+#ifdef ASAM_CMP_VERIF
+public:
+    // Verification hook (read-only): dump of the pending reassembly table, sorted by endpoint.
+    struct VerifPending
+    {
+        uint16_t deviceId;
+        uint8_t streamId;
+        uint8_t lastSegmentType;
+        uint8_t version;
+        uint8_t messageType;
+        uint16_t lastSequenceCounter;
+        std::vector<uint8_t> bytes;
+    };
+
+    std::vector<VerifPending> verifPending() const
+    {
+        std::vector<VerifPending> out;
+        for (const auto& kv : segmentedPackets)
+            out.push_back({kv.first.deviceId,
+                           kv.first.streamId,
+                           static_cast<uint8_t>(kv.second.segmentType),
+                           kv.second.curVersion,
+                           static_cast<uint8_t>(kv.second.curMessageType),
+                           kv.second.curSegment,
+                           kv.second.payload});
+        for (size_t i = 1; i < out.size(); ++i)
+            for (size_t j = i; j > 0 && (out[j].deviceId < out[j - 1].deviceId ||
+                                         (out[j].deviceId == out[j - 1].deviceId && out[j].streamId < out[j - 1].streamId));
+                 --j)
+                std::swap(out[j], out[j - 1]);
+        return out;
+    }
+#endif
 };
 
 END_NAMESPACE_ASAM_CMP
